@@ -124,7 +124,7 @@ DEVK = {'quick': 1, 'thorough': 2}
 
 def run(tier, seed):
     c01.CONFIGS, c01.DEPTH, c01.DEVK = CONFIGS, DEPTH, DEVK
-    c01.DEV_KINDS, c01.QUICK_DEV = ('coop', 'lateclose'), (1, None)      # the statistics menu is 3x larger than C01's
+    c01.DEV_KINDS, c01.QUICK_DEV, c01.THOROUGH_DEV = ('coop', 'lateclose'), (1, None), (2, 8)      # the statistics menu is 3x larger than C01's
     return c01.run(tier, seed, prop=PROP, harness=Harness())
 
 
